@@ -43,11 +43,20 @@ def check(prop, tier):
     build_harness(["daemon"])
     runs = []
     for period in (10, 45, 60, 100, 300):
-        r = run_tlc("MCDaemon", cfg(constants={"Period": period, "MaxRuns": 8 if tier == "thorough" else 6, "FixCap": "TRUE"},
-                                    invariants=["Contract", "NeverBusy"]), f"{prop}-design-{period}", workers=4)
+        r = run_tlc("MCDaemon", cfg(constants={"Period": period, "MaxRuns": 8 if tier == "thorough" else 6, "FixCap": "TRUE", "ResetOnHup": "FALSE", "SwallowHup": "FALSE"},
+                                    invariants=["Contract", "NeverBusy", "SighupServed"]), f"{prop}-design-{period}", workers=4)
         if r["violated"]:
             raise ToolError(f"design check {r['name']} violated {r['violated']} (see {r['out']})")
         runs.append(r)
+    # the model must be able to express the two deviations around SIGHUP (negative controls)
+    for dev, inv in (("ResetOnHup", "Contract"), ("SwallowHup", "SighupServed")):
+        consts = {"Period": 300, "MaxRuns": 5, "FixCap": "TRUE", "ResetOnHup": "FALSE", "SwallowHup": "FALSE"}
+        consts[dev] = "TRUE"
+        n = run_tlc("MCDaemon", cfg(constants=consts, invariants=["Contract", "NeverBusy", "SighupServed"]), f"{prop}-design-{dev}", workers=2)
+        if n["violated"] != inv:
+            raise ToolError(f"MCDaemon: the deviation {dev} = TRUE was not refuted by {inv} (see {n['out']})")
+        n["violated"] = None; n["name"] += f" (expected {inv} violation: seen)"
+        runs.append(n)
     obligations, control = backoff_proof()
     depth = 6 if tier == "thorough" else 4
     g = run_tlc("DaemonGen", f"SPECIFICATION Spec\nCONSTANTS Depth = {depth}\n", f"{prop}-gen", workers=1, java_opts="-Xss512m")
